@@ -46,6 +46,23 @@ impl Zq {
             Kind::E => Zq(a * c - b * d, a * d + b * c + b * d),
         }
     }
+    fn conj(&self, k: Kind) -> Zq {
+        match k {
+            Kind::Z => self.clone(),
+            Kind::G => Zq(self.0.clone(), -&self.1),
+            Kind::E => Zq(&self.0 + &self.1, -&self.1),
+        }
+    }
+    /// exact quotient self / y (None if y does not divide self)
+    fn div_exact(&self, y: &Zq, k: Kind) -> Option<Zq> {
+        let w = self.mul(&y.conj(k), k);
+        let n = y.norm(k);
+        if n.is_zero() { return None }
+        let (a, ra) = w.0.div_rem(&n);
+        let (b, rb) = w.1.div_rem(&n);
+        if ra.is_zero() && rb.is_zero() { Some(Zq(a, b)) } else { None }
+    }
+    fn int(a: ZZ) -> Zq { Zq(a, zi(0)) }
     /// N(z) = z·conj(z)
     fn norm(&self, k: Kind) -> ZZ {
         let (a, b) = (&self.0, &self.1);
@@ -250,7 +267,61 @@ fn alpha(k: Kind) -> Q { match k { Kind::Z | Kind::G => Q::frac(3, 4), Kind::E =
 /// bound on N(μ) guaranteed by coordinate-wise nearest rounding: 1/4 (Z), 1/2 (Z[i]), 3/4 (Z[ω], basis 1, ω−1)
 fn rho(k: Kind) -> Q { match k { Kind::Z => Q::frac(1, 4), Kind::G => Q::frac(1, 2), Kind::E => Q::frac(3, 4) } }
 
+/// integral Gram–Schmidt data from the Gram matrix (Cohen, Algorithm 2.6.7, Hermitian version):
+/// d[i] = det Gram(b_0..b_i) = Π_{l<=i} |b*_l|², lam[i][j] = d[j]·μ_ij.  None if the rows are dependent.
+fn gs_integral(b: &IM, k: Kind) -> Option<(Vec<ZZ>, Vec<Vec<Zq>>)> {
+    let m = b.len();
+    let dot = |x: &Vec<Zq>, y: &Vec<Zq>| -> Zq { let mut s = Zq::zero(); for (a, c) in x.iter().zip(y) { if !a.is_zero() && !c.is_zero() { s = s.add(&a.mul(&c.conj(k), k)); } } s };
+    let mut d: Vec<ZZ> = vec![];
+    let mut lam: Vec<Vec<Zq>> = vec![];
+    for i in 0..m {
+        let mut li = vec![];
+        for j in 0..=i {
+            let mut u = dot(&b[i], &b[j]);
+            for l in 0..j {
+                // u = (d_l·u − λ_il·conj(λ_jl)) / d_{l−1}
+                let ljl: &Zq = if j == i { &li[l] } else { &lam[j][l] };
+                let num = Zq::int(d[l].clone()).mul(&u, k).sub(&li[l].mul(&ljl.conj(k), k));
+                let den = if l == 0 { Zq::one() } else { Zq::int(d[l - 1].clone()) };
+                u = num.div_exact(&den, k).expect("HARNESS-SELF-CHECK: integral Gram–Schmidt division is exact");
+            }
+            if j < i { li.push(u); } else {
+                assert!(u.1.is_zero(), "HARNESS-SELF-CHECK: Gram determinant is rational");
+                if !u.0.is_positive() { return None }
+                d.push(u.0);
+            }
+        }
+        lam.push(li);
+    }
+    Some((d, lam))
+}
+
+/// (numerator, denominator) of α and of the bound ρ on N(μ)
+fn alpha_pq(k: Kind) -> (i64, i64) { match k { Kind::Z | Kind::G => (3, 4), Kind::E => (2, 3) } }
+fn rho_pq(k: Kind) -> (i64, i64) { match k { Kind::Z => (1, 4), Kind::G => (1, 2), Kind::E => (3, 4) } }
+
 fn lll_reduced(b: &IM, k: Kind) -> Result<(), String> {
+    let Some((d, lam)) = gs_integral(b, k) else { return Err("rows of B are linearly dependent".into()) };
+    let (rp, rq) = rho_pq(k);
+    for i in 0..b.len() {
+        for j in 0..i {
+            // N(μ_ij) = N(λ_ij)/d_j² <= rp/rq
+            if !(zi(rq) * lam[i][j].norm(k) <= zi(rp) * &d[j] * &d[j]) { return Err(format!("not size-reduced: N(mu[{},{}]) > {}/{}", i, j, rp, rq)); }
+        }
+    }
+    let (p, q) = alpha_pq(k);
+    for i in 1..b.len() {
+        // |b*_i|² >= (α − N(μ_{i,i-1})) |b*_{i-1}|²  ⇔  q (d_{i-2} d_i + N(λ_{i,i-1})) >= p d_{i-1}²
+        let d0 = if i >= 2 { d[i - 2].clone() } else { zi(1) };
+        let lhs = zi(q) * (d0 * &d[i] + lam[i][i - 1].norm(k));
+        let rhs = zi(p) * &d[i - 1] * &d[i - 1];
+        if !(lhs >= rhs) { return Err(format!("Lovász condition fails at k={}", i)); }
+    }
+    Ok(())
+}
+
+/// the same verdict from the definition (Gram–Schmidt over the fraction field); used to cross-check `lll_reduced`
+fn lll_reduced_rational(b: &IM, k: Kind) -> Result<(), String> {
     let Some((nrm, mu)) = gram_schmidt(b, k) else { return Err("rows of B are linearly dependent".into()) };
     for i in 0..b.len() {
         for j in 0..i {
@@ -258,15 +329,43 @@ fn lll_reduced(b: &IM, k: Kind) -> Result<(), String> {
         }
     }
     for i in 1..b.len() {
-        // |b*_i|² >= (α − N(μ_{i,i-1})) |b*_{i-1}|²
         let rhs = alpha(k).sub(&mu[i][i - 1].norm(k)).mul(&nrm[i - 1]);
         if !rhs.le(&nrm[i]) { return Err(format!("Lovász condition fails at k={}", i)); }
     }
     Ok(())
 }
 
-/// exact inverse over the fraction field; Some only if it exists and is integral (⇔ P unimodular)
+/// Some(P⁻¹) iff P is unimodular: fraction-free Gauss–Jordan, the result is verified by multiplication
 fn integral_inverse(p: &IM, k: Kind) -> Option<IM> {
+    let m = p.len();
+    if p.iter().any(|r| r.len() != m) { return None; }
+    let fast = (|| -> Option<Option<IM>> {
+        let mut a: Vec<Vec<Zq>> = p.iter().enumerate().map(|(i, r)| { let mut v = r.clone(); v.extend((0..m).map(|j| if i == j { Zq::one() } else { Zq::zero() })); v }).collect();
+        let mut prev = Zq::one();
+        for c in 0..m {
+            let Some(piv) = (c..m).find(|&r| !a[r][c].is_zero()) else { return Some(None) };
+            a.swap(c, piv);
+            let pc = a[c].clone();
+            for i in 0..m {
+                if i == c { continue }
+                let f = a[i][c].clone();
+                for j in 0..2 * m { a[i][j] = pc[c].mul(&a[i][j], k).sub(&f.mul(&pc[j], k)).div_exact(&prev, k)?; }
+            }
+            prev = pc[c].clone();
+        }
+        if m == 0 { return Some(Some(vec![])) }
+        let det = a[m - 1][m - 1].clone();
+        if !det.norm(k).is_one() { return Some(None) }
+        let mut out = vec![];
+        for r in 0..m { let mut row = vec![]; for j in 0..m { row.push(a[r][m + j].div_exact(&a[r][r], k)?); } out.push(row); }
+        if !is_identity(&mat_mul(p, &out, m, k)) { return None }
+        Some(Some(out))
+    })();
+    match fast { Some(r) => r, None => integral_inverse_rational(p, k) }
+}
+
+/// exact inverse over the fraction field; Some only if it exists and is integral (⇔ P unimodular)
+fn integral_inverse_rational(p: &IM, k: Kind) -> Option<IM> {
     let m = p.len();
     if p.iter().any(|r| r.len() != m) { return None; }
     let mut a: Vec<Vec<K>> = p.iter().enumerate().map(|(i, r)| {
@@ -296,20 +395,21 @@ fn integral_inverse(p: &IM, k: Kind) -> Option<IM> {
 }
 
 fn rank(a: &IM, n: usize, k: Kind) -> usize {
-    let mut a: Vec<Vec<K>> = a.iter().map(|r| r.iter().map(K::from_z).collect()).collect();
+    let mut a = a.clone();
     let m = a.len();
+    let mut prev = Zq::one();
     let mut r = 0;
     for c in 0..n {
         if r == m { break; }
         let Some(p) = (r..m).find(|&i| !a[i][c].is_zero()) else { continue };
         a.swap(r, p);
-        let inv = a[r][c].inv(k);
+        let pr = a[r].clone();
         for i in r + 1..m {
-            if !a[i][c].is_zero() {
-                let f = a[i][c].mul(&inv, k);
-                for j in c..n { let t = f.mul(&a[r][j], k); a[i][j] = a[i][j].sub(&t); }
-            }
+            let f = a[i][c].clone();
+            for j in c + 1..n { a[i][j] = pr[c].mul(&a[i][j], k).sub(&f.mul(&pr[j], k)).div_exact(&prev, k).expect("HARNESS-SELF-CHECK: Bareiss division is exact"); }
+            a[i][c] = Zq::zero();
         }
+        prev = pr[c].clone();
         r += 1;
     }
     r
@@ -598,7 +698,6 @@ fn lll_case(s: &mut Sink, cx: &mut Ctx, r: &mut Rng, ty: Ty, a: &IM, m: usize, n
     let k = ty.kind();
     s.count(&format!("lll.{}", ty.name()));
     s.count(&format!("lll.shape.{}x{}", m, n));
-    let mut reference: Option<(IM, Q)> = None; // verified B = P·A with P unimodular, and its Gram determinant
     for flag in [true, false] {
         let d = desc("lll", ty, &format!("{}", flag), a, m, n);
         let Some(out) = call_lll(ty, a, m, n, flag, cx.secs) else { s.count("skipped.does-not-fit-type"); return };
@@ -623,17 +722,23 @@ fn lll_case(s: &mut Sink, cx: &mut Ctx, r: &mut Rng, ty: Ty, a: &IM, m: usize, n
                 pinv = integral_inverse(p, k);
                 s.oracle(pinv.is_some(), "P is unimodular", &d, &im_txt(p, m, m, k));
             }
-            if ok && pinv.is_some() { reference = Some((b.clone(), gram_det(&b, k))); }
         }
         if !flag {
-            // no transform: B must span the lattice of A.  B ⊆ L(A) via the exact solution of X·A_ref = B over the
-            // fraction field being integral is expensive; use: rows of B in L(B_ref) ⇔ B·B_ref⁻¹ integral (square
-            // case) is not available for m < n, so compare through Gram determinants plus membership by reduction
-            // against the verified reference basis (solve over the field with the reference's Gram–Schmidt data).
-            if let Some((b0, g0)) = &reference {
-                let ok = gram_det(&b, k) == *g0 && rows_in_span_integrally(&b, b0, k);
-                s.oracle(ok, "B (no transform requested) spans the row lattice of A", &d, &im_txt(&b, m, n, k));
+            // no transform returned: B must still span the row lattice of A.  L(B) ⊆ L(A) is tested against an echelon
+            // basis of L(A) (the Hermite form returned by lll_hnf, used only after the oracle has verified H0 = P0·A,
+            // P0·Q0 = I and the echelon shape); equal Gram determinants then give equality of the lattices.
+            if let Some(Out::Ok((h0, Some(p0), Some(q0), _))) = call_hnf(ty, a, m, n, [true, true], cx.secs) {
+                if dims_ok(&h0, m, n) && dims_ok(&p0, m, m) && dims_ok(&q0, m, m) && mat_mul(&p0, a, n, k) == h0 && is_identity(&mat_mul(&p0, &q0, m, k)) && is_echelon(&h0, n) {
+                    let ga = gs_integral(a, k).map(|x| x.0[m - 1].clone());
+                    let gb = gs_integral(&b, k).map(|x| x.0[m - 1].clone());
+                    let ok = ga.is_some() && ga == gb && b.iter().all(|v| in_lattice(&h0, v, n, k));
+                    s.oracle(ok, "B (no transform requested) spans the row lattice of A", &d, &im_txt(&b, m, n, k));
+                }
             }
+        }
+        if max_bits(&b) <= 40 {
+            assert!(red.is_ok() == lll_reduced_rational(&b, k).is_ok(), "HARNESS-SELF-CHECK: integral and rational reducedness tests agree");
+            if let Some(p) = &p { if dims_ok(p, m, m) { assert!(integral_inverse(p, k) == integral_inverse_rational(p, k), "HARNESS-SELF-CHECK: inverse"); } }
         }
         s.eval_only(&d, m > 1);
         if k == Kind::Z {
@@ -653,54 +758,6 @@ fn lll_case(s: &mut Sink, cx: &mut Ctx, r: &mut Rng, ty: Ty, a: &IM, m: usize, n
             s.case(&req, &reply, m > 1);
         }
     }
-}
-
-/// product of the |b*_i|² (the Gram determinant)
-fn gram_det(b: &IM, k: Kind) -> Q {
-    match gram_schmidt(b, k) { Some((nrm, _)) => nrm.iter().fold(Q::int(zi(1)), |x, y| x.mul(y)), None => Q::zero() }
-}
-
-/// every row of `b` is an INTEGRAL combination of the independent rows of `b0`
-fn rows_in_span_integrally(b: &IM, b0: &IM, k: Kind) -> bool {
-    // coefficients x with x·B0 = v: x = v·B0ᴴ·(B0·B0ᴴ)⁻¹
-    let m = b0.len();
-    let b0k: Vec<Vec<K>> = b0.iter().map(|r| r.iter().map(K::from_z).collect()).collect();
-    // Gram matrix and its inverse over the field
-    let mut g: Vec<Vec<K>> = (0..m).map(|i| {
-        let mut row: Vec<K> = (0..m).map(|j| h_dot(&b0k[i], &b0k[j], k)).collect();
-        row.extend((0..m).map(|j| if i == j { K::one() } else { K::zero() }));
-        row
-    }).collect();
-    for c in 0..m {
-        let Some(piv) = (c..m).find(|&r| !g[r][c].is_zero()) else { return false };
-        g.swap(c, piv);
-        let inv = g[c][c].inv(k);
-        for j in 0..2 * m { g[c][j] = g[c][j].mul(&inv, k); }
-        for r in 0..m {
-            if r != c && !g[r][c].is_zero() {
-                let f = g[r][c].clone();
-                for j in 0..2 * m { let t = f.mul(&g[c][j], k); g[r][j] = g[r][j].sub(&t); }
-            }
-        }
-    }
-    for v in b {
-        let vk: Vec<K> = v.iter().map(K::from_z).collect();
-        let w: Vec<K> = (0..m).map(|j| h_dot(&vk, &b0k[j], k)).collect(); // v·B0ᴴ
-        let mut x: Vec<K> = vec![];
-        for j in 0..m {
-            let mut sacc = K::zero();
-            for l in 0..m { sacc = sacc.add(&w[l].mul(&g[l][m + j], k)); }
-            x.push(sacc);
-        }
-        if x.iter().any(|e| e.to_int().is_none()) { return false; }
-        // and x·B0 really is v (v lies in the span)
-        for t in 0..v.len() {
-            let mut sacc = K::zero();
-            for l in 0..m { sacc = sacc.add(&x[l].mul(&b0k[l][t], k)); }
-            if sacc != vk[t] { return false; }
-        }
-    }
-    true
 }
 
 // ---------------------------------------------------------------------------------------------
@@ -857,7 +914,7 @@ fn gen_lll_input(r: &mut Rng, m: usize, n: usize, mag: Mag, k: Kind) -> Option<(
             (a, "graded")
         }
     };
-    if rank(&a, n, k) == m { Some((a, what)) } else { None }
+    if gs_integral(&a, k).is_some() { Some((a, what)) } else { None }
 }
 
 fn max_bits(a: &IM) -> u64 { a.iter().flatten().map(|e| e.0.bits().max(e.1.bits())).max().unwrap_or(0) }
